@@ -171,6 +171,33 @@ class DA:
         self.reports.append(Report(self.fi, name, n, 'closure-maybe-unbound'))
     return self.reports
 
+  def _nested_unbound_reads(self, fn, st):
+    """Reads, inside the nested function `fn`, of this function's locals that are not dominated by a binding when the
+    body of `fn` is analysed from the state at its definition - including the correlated guards recorded so far: a name
+    bound under `if G:` outside is bound inside `fn` wherever G is known to hold (e.g. after `if not G: return`)."""
+    a = fn.args
+    params = {x.arg for x in a.posonlyargs + a.args + a.kwonlyargs}
+    if a.vararg:
+      params.add(a.vararg.arg)
+    if a.kwarg:
+      params.add(a.kwarg.arg)
+    inner_locals = _local_names(fn) | params
+    sub = DA.__new__(DA)
+    sub.fi = self.fi
+    sub.locals = set(self.locals) | inner_locals
+    sub.reports, sub.exit_states, sub.closure_reads = [], [], []
+    st2 = st.copy()
+    st2.assigned = (set(st.assigned) - inner_locals) | params | {fn.name}
+    try:
+      sub.block(fn.body, st2)
+    except RecursionError:
+      return [n for n in _free_reads(fn) if n.id in self.locals]
+    out = [r.node for r in sub.reports if r.name in self.locals and r.name not in inner_locals and isinstance(r.node, ast.Name)]
+    out += [n for (nm, n, assigned_at_def) in sub.closure_reads if nm in self.locals and nm not in inner_locals and nm not in assigned_at_def]
+    # only names that are free in fn can refer to the enclosing function's variables
+    free = {id(n) for n in _free_reads(fn)}
+    return [n for n in out if id(n) in free]
+
   # -- helpers
   def check_expr(self, expr, st):
     for n in _names_read(expr):
@@ -255,9 +282,8 @@ class DA:
       for d in s.decorator_list:
         self.check_expr(d, st)
       # free reads of enclosing locals inside the nested def
-      for n in _free_reads(s):
-        if n.id in self.locals:
-          self.closure_reads.append((n.id, n, set(st.assigned) | {s.name}))
+      for n in self._nested_unbound_reads(s, st):
+        self.closure_reads.append((n.id, n, set(st.assigned) | {s.name}))
       st.assigned.add(s.name)
       st.versions[s.name] = st.versions.get(s.name, 0) + 1
       return st, False
